@@ -230,7 +230,7 @@ def tpd_case(draw, tier="quick"):
     d = 2 if what in ("tangent_from_outside", "polar") else draw(st.sampled_from([2, 3]))
     return {"d": d, "what": what, "sig": draw(st.sampled_from(SIGS[d][:1] + SIGS[d][2:] if d == 2 else SIGS[d][:2])), "n": draw(Z.params(9)), "i": draw(st.integers(0, 5)),
             "p": draw(C.hpoint(d, 5)), "q": draw(C.hpoint(d, 5)), "cls": draw(st.sampled_from(["Circle", "Sphere2", "Sphere3"] if what in ("is_tangent_class", "tangency_after_move") else ["Quadric", "Conic", "Circle", "Ellipse", "Sphere2", "Sphere3", "QuadricCollection"])),
-            "c": [draw(C.ints(6)) for _ in range(3)], "r": draw(st.sampled_from([1, 2, 3, 5])), "u": draw(st.integers(0, len(UNIT) - 1)), "truth": draw(st.booleans()), "s": draw(C.scale())}
+            "c": [draw(C.ints(6)) for _ in range(3)], "r": draw(st.sampled_from([1, 2, 3, 5])), "u": draw(st.integers(0, len(UNIT) - 1)), "truth": draw(st.booleans()), "s": draw(C.scale()), "centre": draw(st.sampled_from([False, False, True]))}
 
 
 def run_tpd(c):
@@ -293,6 +293,11 @@ def run_tpd(c):
                 raise Skip("Conic only")
             Q = Conic(Sa)
             p, q = fr(c["p"]), fr(c["q"])
+            if c.get("centre"):
+                # the pole of the line at infinity (the centre of the conic): its polar has no normal part
+                p = fr(primitive([(-1) ** (i + 2) * X.det([[S[r][cc_] for cc_ in range(3) if cc_ != i] for r in range(3) if r != 2]) for i in range(3)]))
+                if not any(p):
+                    raise Skip("no centre")
             pp, f = call("polar", Q.polar, Point(np_f(p)))
             if f:
                 return [f]
@@ -570,7 +575,7 @@ LAWS = [
     Law("intersect_line", lambda tier: isect_case(tier), run_isect, isect_nontrivial, lambda c: [f"d{c['d']}", c["ltype"], "sig" + "".join("+" if x > 0 else "-" for x in c["sig"])] + ([c["coll"]] if c["coll"] else []) + (["collection-with-axis-parallel-line"] if c["coll"] == "lines" and c.get("other", "").startswith("axis") else []),
         {"quick": 2500, "thorough": 50000}, "quadric.intersect(line) = roots of the exact restriction; every point on both; secant/tangent/complex/origin/infinity", shard=300,
         mandatory=("tangent", "secant", "lines", "quadrics", "collection-with-axis-parallel-line")),
-    Law("tangent_polar_dual", lambda tier: tpd_case(tier), run_tpd, lambda c: True, lambda c: [c["what"]] + ([c["cls"]] if c["what"] in ("dual_class", "is_tangent_class") else []),
+    Law("tangent_polar_dual", lambda tier: tpd_case(tier), run_tpd, lambda c: True, lambda c: [c["what"]] + ([c["cls"]] if c["what"] in ("dual_class", "is_tangent_class") else []) + (["polar-of-the-centre"] if c["what"] == "polar" and c.get("centre") else []),
         {"quick": 2500, "thorough": 40000}, "tangent(at), tangents from outside, pole/polar reciprocity, dual involution for every class, is_tangent", shard=300),
     Law("special_quadrics", lambda tier: deg_case(tier), run_deg, lambda c: True, lambda c: [c["what"]] + (["centre-far-from-origin"] if c["what"] in ("circle", "sphere") and c.get("far", 1) > 1 else []), {"quick": 1200, "thorough": 20000},
         "line pairs / plane pairs / cones / cylinders / circles / spheres intersected with secants through known points and tangents", shard=200),
